@@ -1,4 +1,7 @@
-import AsherahVerif.Driver.Loop
-/- model driver executable of engine `conc` (stub until the engine is built) -/
-def main (_args : List String) : IO UInt32 := do
-  IO.eprintln "engine conc: not built yet"; return 2
+import AsherahVerif.Driver.Conc
+open AsherahVerif.Driver.Conc
+
+def main (args : List String) : IO UInt32 := do
+  match args with
+  | "keyref" :: rest => IO.println (keyref rest); return 0
+  | _ => IO.eprintln "usage: md_conc keyref <nKeys> <maxHeld> <maxObjs> <depth>"; return 2
